@@ -30,7 +30,7 @@ package mqtt
 //@   props C09
 //@   requires c != nil && ctx != nil
 //@   assigns nothing
-//@   ensures result0 != nil && result1 != nil
+//@   ensures[C01,C09,C17] result0 != nil && result1 != nil
 //@   ensures[C09] no_timeout: c.Timeout == 0 ==> result0 == ctx && evCount("context.WithTimeout") == 0
 //@   ensures[C09] with_timeout: c.Timeout != 0 ==> evCount("context.WithTimeout") == 1 && evArg[context.Context]("context.WithTimeout", 0, 0) == ctx &&
 //@        evArg[time.Duration]("context.WithTimeout", 0, 1) == c.Timeout && result0 == evRet[context.Context]("context.WithTimeout", 0, 0)
